@@ -59,10 +59,11 @@ pub fn batch(seed: u64, index: u64) -> (u32, Vec<u32>) {
     (m, v)
 }
 
-pub fn execute(m: u32, scripts: &[u32], seed: u64) -> W {
+pub fn execute(m: u32, scripts: &[u32], seed: u64, with_sub: bool) -> W {
     let ctx = Ctx::new_opts(ScriptSrc::Verdicts, 1, seed, 0, false, true);
     let w = W::new(ctx, vec![StoreCfg { policy: POL_BLOCK, cap: 16, n_red: N_RED, n_mw: m, name: "rsvf".into() }]);
-    let keep = w.add_direct(0, NOGATE, false, true, false);
+    // a store without any subscriber must still run the before_dispatch hooks
+    let keep = if with_sub { Some(w.add_direct(0, NOGATE, false, true, false)) } else { None };
     let mut exp_runs = 0u64;
     for (k, sn) in scripts.iter().enumerate() {
         let id = act_id(0, 1 + (k as u32 >> 13), (k as u32 & 0x1fff) + 1);
@@ -76,7 +77,9 @@ pub fn execute(m: u32, scripts: &[u32], seed: u64) -> W {
     w.dispatch(0, EP_INHERENT, Act { id: tail, script: 0 });
     crate::fam_a::wait_until(|| {
         let bufs = w.ctx.log.bufs.lock().unwrap();
-        bufs.iter().any(|(_, b)| b.lock().unwrap().iter().rev().take(64).any(|e| e.k == K::SEnd && e.a == tail))
+        // the tail's notification (or, without a subscriber, its last before_effect hook) has ended:
+        // the effects of every earlier action have been submitted
+        bufs.iter().any(|(_, b)| b.lock().unwrap().iter().rev().take(64).any(|e| e.a == tail && ((e.k == K::SEnd) || (!with_sub && e.k == K::MEnd && e.idx == (m - 1) * 4 + 1))))
     });
     // effects already submitted run before stop() returns; waiting here only keeps them off the
     // pool's shutdown path (cap: detection of a missing run does not depend on it)
@@ -131,7 +134,8 @@ pub fn c12(h: &Hist, s: u8, v: &mut Verdicts) -> u64 {
     }
     let m_n = cfg.n_mw;
     let mut cur = St::initial(s);
-    let sub_id = h.subs.iter().find(|x| x.kind == SK_DIRECT).map(|x| x.id).unwrap_or(0);
+    let has_sub = h.subs.iter().any(|x| x.kind == SK_DIRECT);
+    let sub_id = h.subs.iter().find(|x| x.kind == SK_DIRECT).map(|x| x.id).unwrap_or(u32::MAX);
     let mut runs: HashMap<(u32, u32), u32> = HashMap::new();
     for e in h.evs.iter().filter(|e| e.k == K::EBeg) {
         *runs.entry((e.a, e.idx)).or_insert(0) += 1;
@@ -285,7 +289,7 @@ pub fn c12(h: &Hist, s: u8, v: &mut Verdicts) -> u64 {
             if suppressed && !nots.is_empty() {
                 bad!("{}: subscriber notified although a before_dispatch hook answered DoneAction", desc());
             }
-            if !suppressed && nots.is_empty() {
+            if !suppressed && nots.is_empty() && has_sub {
                 bad!("{}: subscriber not notified although no called before_dispatch hook answered DoneAction", desc());
             }
         }
@@ -330,7 +334,8 @@ pub fn run(seed: u64, index: u64, tiny: bool) -> Outcome {
     if tiny {
         scripts.truncate(6);
     }
-    let w = execute(m, &scripts, seed);
+    let with_sub = index % 2 == 0 || index < B1 + B2;
+    let w = execute(m, &scripts, seed, with_sub);
     let h = Hist::from_world(&w);
     let mut v = Verdicts::default();
     c12(&h, 0, &mut v);
@@ -338,6 +343,7 @@ pub fn run(seed: u64, index: u64, tiny: bool) -> Outcome {
         ("family", J::s("F")),
         ("middlewares", J::U(m as u64)),
         ("batch_index", J::U(index)),
+        ("subscriber_registered", J::B(with_sub)),
         ("actions", J::U(scripts.len() as u64)),
         ("first_scripts", J::A(scripts.iter().take(6).map(|s| J::s(format!("{:#x}", s))).collect())),
     ]);
